@@ -792,8 +792,87 @@ pub fn check_c20(ctx: &mut Ctx, cfg: &Cfg) {
             }
         }
     }
+    // list-adding calls append: the image of the list without its last entry (or with only its first)
+    // is a prefix of the image of the whole list (model-free; insertion-ordered lists only - NACK numbers
+    // are a sorted set and FIR entries a map, so they are not included)
+    if let Some(full) = &base.1 {
+        for (shorter, tail) in list_prefixes(cfg) {
+            let Ok((WOut::Ok(_), Some(a))) = call(|| build_with_history(&shorter, 0)) else { continue };
+            let upto = a.len().saturating_sub(tail);
+            if upto <= 4 {
+                continue;
+            }
+            ctx.class("c20:append-prefix-checked");
+            if full.len() < upto || a[4..upto] != full[4..upto] {
+                ctx.violate(
+                    "insertion-order",
+                    kind,
+                    "append-is-prefix",
+                    || cfg_case("c20", cfg, How::default()),
+                    format!("adding entries leaves the earlier ones where they were: bytes 4..{upto} of {} stay", hex(&a[..a.len().min(64)])),
+                    format!("the longer list is written as {}", hex(&full[..full.len().min(64)])),
+                );
+                break;
+            }
+        }
+    }
     ctx.nontrivial(hash_of(cfg));
     ctx.sample_sparse(10_007, || J::obj().set("cfg", cfg.shape()).set("histories", C20_HISTORIES));
+}
+
+/// Shorter versions of an insertion-ordered list configuration (padding removed, nothing after the
+/// list), each with the number of bytes at the end of the *shorter* image that do not belong to the
+/// list (terminator and fill of an SDES chunk).
+fn list_prefixes(cfg: &Cfg) -> Vec<(Cfg, usize)> {
+    fn cuts(n: usize) -> Vec<usize> {
+        let mut v = vec![];
+        if n >= 2 {
+            v.push(n - 1);
+            if n > 2 {
+                v.push(1);
+            }
+        }
+        v
+    }
+    let mut out = vec![];
+    match cfg {
+        Cfg::Sr { ssrc, ntp, rtp, pc, oc, blocks, padding: 0 } => {
+            for k in cuts(blocks.len()) {
+                out.push((Cfg::Sr { ssrc: *ssrc, ntp: *ntp, rtp: *rtp, pc: *pc, oc: *oc, blocks: blocks[..k].to_vec(), padding: 0 }, 0));
+            }
+        }
+        Cfg::Rr { ssrc, blocks, padding: 0 } => {
+            for k in cuts(blocks.len()) {
+                out.push((Cfg::Rr { ssrc: *ssrc, blocks: blocks[..k].to_vec(), padding: 0 }, 0));
+            }
+        }
+        Cfg::Bye { sources, reason, padding: 0 } if reason.is_empty() => {
+            for k in cuts(sources.len()) {
+                out.push((Cfg::Bye { sources: sources[..k].to_vec(), reason: String::new(), padding: 0 }, 0));
+            }
+        }
+        Cfg::Fb { kind, sender, media, fci: Fci::Sli(l), padding: 0 } => {
+            for k in cuts(l.len()) {
+                out.push((Cfg::Fb { kind: *kind, sender: *sender, media: *media, fci: Fci::Sli(l[..k].to_vec()), padding: 0 }, 0));
+            }
+        }
+        Cfg::Sdes { chunks, padding: 0 } => {
+            for k in cuts(chunks.len()) {
+                out.push((Cfg::Sdes { chunks: chunks[..k].to_vec(), padding: 0 }, 0));
+            }
+            if let [only] = &chunks[..] {
+                for k in cuts(only.items.len()) {
+                    let items = only.items[..k].to_vec();
+                    // bytes of the shorter image after its last item: terminator + fill
+                    let used: usize = 8 + items.iter().map(|i| 2 + i.value.len() + if i.type_ == 8 { 1 + i.prefix.len() } else { 0 }).sum::<usize>();
+                    let total = (used + 1 + 3) / 4 * 4;
+                    out.push((Cfg::Sdes { chunks: vec![Chunk { ssrc: only.ssrc, items }], padding: 0 }, total - used));
+                }
+            }
+        }
+        _ => {}
+    }
+    out
 }
 
 fn reorderings(cfg: &Cfg) -> Vec<Cfg> {
